@@ -307,8 +307,19 @@ def ejection_model(ctx):
         if isinstance(a, ast.Assign) and len(a.targets) == 1 and isinstance(a.targets[0], ast.Name) and isinstance(a.value, ast.Call) and 'fragment_class' in src(a.value.func):
             frag = a.targets[0].id
     frag = frag or 'fragment'
+    step_body = gates[0].body
+    if len(step_body) == 1 and isinstance(step_body[0], ast.Continue) and not gates[0].orelse:
+        # the gate written as a guard clause (`if not due: continue`): the step is what follows it in the read loop
+        mod_ = ctx.ix.module(MOLITER)
+        holder = mod_.parent.get(gates[0])
+        blk = next((getattr(holder, fld) for fld in ('body', 'orelse') if isinstance(getattr(holder, fld, None), list) and gates[0] in getattr(holder, fld)), None)
+        if blk is None:
+            return None
+        step_body = blk[blk.index(gates[0]) + 1:]
+    elif gates[0].orelse and len(gates[0].orelse) == 1 and isinstance(gates[0].orelse[0], ast.Continue):
+        pass
     step = ast.FunctionDef(name='ejection_step', args=ast.arguments(posonlyargs=[], args=[ast.arg(arg='self'), ast.arg(arg=frag)], kwonlyargs=[], kw_defaults=[], defaults=[]),
-                           body=copy.deepcopy(gates[0].body), decorator_list=[], lineno=gates[0].lineno, col_offset=0)
+                           body=copy.deepcopy(step_body), decorator_list=[], lineno=gates[0].lineno, col_offset=0)
     ast.fix_missing_locations(step)
     n = 0
 
